@@ -38,10 +38,19 @@
      last hit test, as computed by an observer from the inputs alone (hov_track, hover_obs).
      C15_key_route_obs, C15_mouse_route_obs, C15_focused_is_last_focusin(_step),
      C15_hover_tracked and C15_hover_obs prove that every run of the model satisfies them.
+   * Ticks that are laid out twice (an enter/leave handler called by mouseHandler.update asked
+     for a redraw) with a tree that CHANGES between the two layouts, and trees that change
+     between ticks while focus and pointer rest ([FFrame2 t1 t2], frame2, fstep, frun): the
+     frames stream observes a real App.Run per input and evaluates [f_step_ok] on it: a key is
+     offered capture-target-bubble along the chain of the focused widget in the tree ON SCREEN
+     (the second layout), a mouse event along the surfaces under the pointer in that tree, the
+     focus deliveries form one chain, every widget is hovered exactly when the observer's
+     tracker says so (hit test against the FIRST layout).  C15_frames_step_sound proves that
+     every step of the model satisfies f_step_ok and keeps the observer linked to the state.
    Not covered: errors returned by handlers; the 8 ms timer (a frame is an input);
    SetMouseShapeCmd (only stored for the next render). *)
 From Coq Require Import Permutation.
-From Vx Require Import base.Prelude base.ListX model.Route proofs.RouteProofs.
+From Vx Require Import base.Prelude base.ListX model.Route proofs.RouteProofs proofs.RouteFramesProofs.
 Local Open Scope Z_scope.
 
 (* ---------------------------------------------------------------- commands_once *)
@@ -329,6 +338,101 @@ Theorem C15_hover_obs :
 Proof. exact hover_obs_model. Qed.
 Print Assumptions C15_hover_obs.
 
+
+(* ---------------------------------------------------------------- ticks laid out twice *)
+
+(* a tick whose two layouts draw the same tree is the frame case modelled by [frame] *)
+Theorem C15_frame2_same :
+  forall oracle fuel (s : st) (t : tree), frame2 oracle fuel s t t = frame oracle fuel s t.
+Proof. exact frame2_same. Qed.
+Print Assumptions C15_frame2_same.
+
+(* The focus path after a tick.  With a redraw pending the root is laid out [lay] = 1 or 2
+   times; the tree on screen and stored as lastFrame is the LAST layout ([shown_tree]: t2 when
+   an enter/leave handler asked for a redraw during the hit test of t1).  If no
+   FocusIn/FocusOut was delivered in the tick, the focus has not moved and the stored path is
+   the chain from the App's root to the focused widget in the tree on screen, never in the
+   discarded first layout. *)
+Theorem C15_frame2_path_shown :
+  forall oracle fuel (s : st) (t1 t2 : tree) (s' : st) (lay : Z),
+  f_redraw (co s) = true ->
+  frame2 oracle fuel s t1 t2 = Some s' -> layouts oracle fuel s t1 = Some lay ->
+  exists D, log (co s') = log (co s) ++ D /\ root s' = root s /\
+    last_frame s' = shown_tree lay t1 t2 /\
+    (existsb focus_entry D = false ->
+       focused (co s') = focused (co s) /\
+       focus_chain_ws (root s) (shown_tree lay t1 t2) (focused (co s)) = Some (path s')).
+Proof. intros oracle. exact (frame2_path_shown oracle (fun _ => false)). Qed.
+Print Assumptions C15_frame2_path_shown.
+
+(* ... hence a key event that arrives after such a tick is offered to the capturing ancestors
+   of the tree on screen, then to the focused widget, then bubbles along that chain *)
+Theorem C15_frames_key_after_tick :
+  forall oracle capturer fuel (s : st) (t1 t2 : tree) (s1 : st) (lay : Z) (ev : event) (s2 : st),
+  f_redraw (co s) = true ->
+  frame2 oracle fuel s t1 t2 = Some s1 -> layouts oracle fuel s t1 = Some lay ->
+  existsb focus_entry (skipn (length (log (co s))) (log (co s1))) = false ->
+  is_focus_ev ev = false -> focus_handle oracle capturer fuel s1 ev = Some s2 ->
+  exists ws D,
+    focus_chain_ws (root s) (shown_tree lay t1 t2) (focused (co s)) = Some ws /\
+    log (co s2) = log (co s1) ++ D /\ key_route_obs capturer ws (focused (co s)) ev D = true.
+Proof. exact frames_key_after_tick. Qed.
+Print Assumptions C15_frames_key_after_tick.
+
+(* over one input (a tick with two layouts included) the FocusOut/FocusIn deliveries form one
+   chain from the widget focused before to the one focused afterwards, which is the receiver
+   of the last FocusIn *)
+Theorem C15_frames_focus :
+  forall oracle capturer, no_focus_from_focusout oracle ->
+  forall fuel (s : st) (i : finput) (s' : st),
+  f_nonfocus i -> fstep oracle capturer fuel s i = Some s' ->
+  exists D, log (co s') = log (co s) ++ D /\
+    focused (co s') = focus_after (focused (co s)) D /\
+    focus_chain (focused (co s)) (focus_log D) = Some (focused (co s')).
+Proof. exact fstep_focus. Qed.
+Print Assumptions C15_frames_focus.
+
+(* the hover observer of the frames stream ([f_hov]: hit test against the first layout, frame
+   = the layout on screen) follows the mouse handler through every input *)
+Theorem C15_frames_hover_tracked :
+  forall oracle capturer fuel (s : st) (i : finput) (s' : st) (h : hov_st) (lay : Z),
+  hov_tracks h s -> Forall wf16 (ftrees i) -> not_iframe i ->
+  fstep oracle capturer fuel s i = Some s' ->
+  match i with FFrame2 t1 _ => layouts oracle fuel s t1 = Some lay | _ => True end ->
+  hov_tracks (f_hov h i lay) s'.
+Proof. exact tracks_fstep. Qed.
+Print Assumptions C15_frames_hover_tracked.
+
+(* enter/leave alternate and every widget is hovered exactly when the observer expects it,
+   over every history of App.Run with ticks whose two layouts differ and trees that change
+   between ticks (no widget twice in one tree, no terminal FocusIn: the recorded findings) *)
+Theorem C15_frames_hover_obs :
+  forall oracle capturer fuel (r : wid) (l : list finput) (s0 s' : st) (h : hov_st),
+  root s0 = r -> log (co s0) = [] -> last_hits s0 = [] -> NoDup (ids (last_frame s0)) ->
+  Forall fobs_good l ->
+  frun oracle capturer fuel s0 l = Some s' -> hov_tracks h s' ->
+  hover_obs (fun _ => false) (log (co s')) (hv_set h) = true.
+Proof. exact frames_hover_obs. Qed.
+Print Assumptions C15_frames_hover_obs.
+
+(* The predicate of the frames stream.  [f_inv rt sp s]: the observer [sp] (computed from the
+   inputs, the observed calls and the number of layouts of each tick alone) is linked to the
+   model state [s].  Every step of the model on an input of App.Run — key / application
+   event, mouse, terminal FocusOut, Resize / Redraw, the prologue, a tick with two layouts —
+   satisfies [f_step_ok] on its own output and keeps the link; the link holds at the start
+   (C15_ex_frames_init).  Guard: no handler answers a FocusOut with a focus command (finding
+   focus-in-focusout); the trees have uint16 sizes and show no widget twice (dup-widget). *)
+Theorem C15_frames_step_sound :
+  forall oracle capturer, no_focus_from_focusout oracle ->
+  forall fuel (rt : wid) (sp : fspec) (s : st) (i : finput) (s' : st) (lay : Z),
+  f_inv rt sp s -> f_app_input i = true ->
+  Forall (fun t => NoDup (ids t) /\ wf16 t) (ftrees i) ->
+  fstep oracle capturer fuel s i = Some s' -> f_lay oracle fuel s i lay ->
+  let d := skipn (length (log (co s))) (log (co s')) in
+  f_step_ok capturer rt sp i d lay = true /\ f_inv rt (f_next sp i d lay) s'.
+Proof. exact frames_step_sound. Qed.
+Print Assumptions C15_frames_step_sound.
+
 (* ---------------------------------------------------------------- fuel *)
 
 (* With a finite script (the k-th handler call returns the k-th command, nothing afterwards)
@@ -522,3 +626,69 @@ Example C15_ex_hover_shrink :
   hover_obs (fun _ => false) [(0, EEnter, Target, CNone)] (hv_set h2) = false /\
   hover_obs (fun _ => false) [(0, EEnter, Target, CNone); (0, ELeave, Target, CNone)] (hv_set h2) = true.
 Proof. vm_compute. repeat split; reflexivity. Qed.
+
+(* ticks with two layouts.  Root 0 shows the focused input 1; the pointer rests at (0,2); the
+   next tick first draws a panel 3 under the pointer (rl_t1), whose MouseEnter handler asks for
+   a redraw, and the second layout (rl_t2) shows the input inside a capturing form 2: the tick
+   is laid out twice, the path is root > form > input, the hit list is the one of the first
+   layout, and a key is offered form:capture, input:target, form:bubble, root:bubble.  The
+   observation predicate accepts that history and rejects the one in which the key skips the
+   form (a path computed from the discarded first layout). *)
+Definition rl_t0 := Node 0 20 5 [(0, 0, 0, Node 1 5 1 [])].
+Definition rl_t1 := Node 0 20 5 [(0, 0, 0, Node 1 5 1 []); (0, 2, 0, Node 3 10 2 [])].
+Definition rl_t2 := Node 0 20 5 [(0, 0, 0, Node 2 5 1 [(0, 0, 0, Node 1 5 1 [])]); (0, 2, 0, Node 3 10 2 [])].
+Definition rl_script := [CFocus 1; CNone; CNone; CNone; CNone; CRedraw].
+Definition rl_history (key_calls : list call3) : fcase :=
+  ([2], 0, rl_script,
+   [(FI (IStart rl_t0), ([(0, EInit, Target); (0, EFocusOut, Target); (1, EFocusIn, Target)], 0));
+    (FI IRedrawReq, ([], 0));
+    (FFrame2 rl_t0 rl_t0, ([], 1));
+    (FI (IMouse 0 2), ([(0, EEnter, Target); (0, EMouse 0 2, Target)], 0));
+    (FI IRedrawReq, ([], 0));
+    (FFrame2 rl_t1 rl_t2, ([(3, EEnter, Target)], 2));
+    (FI (IEv (EKey 7)), (key_calls, 0))]).
+Example C15_ex_relayout :
+  let good := [(2, EKey 7, Capture); (1, EKey 7, Target); (2, EKey 7, Bubble); (0, EKey 7, Bubble)] in
+  let bad := [(1, EKey 7, Target); (0, EKey 7, Bubble)] in
+  f_case_ok (rl_history good) = true /\ f_case_holds (rl_history good) = true /\
+  f_case_ok (rl_history bad) = false /\ f_case_holds (rl_history bad) = false /\
+  match frun (script_oracle rl_script) (capt_of [2]) 50 (init_st 0)
+          [FI (IStart rl_t0); FI IRedrawReq; FFrame2 rl_t0 rl_t0; FI (IMouse 0 2); FI IRedrawReq; FFrame2 rl_t1 rl_t2] with
+  | Some s => path s = [0; 2; 1] /\ last_frame s = sort_tree rl_t2 /\ map h_wid (last_hits s) = [0; 3]
+  | None => False
+  end.
+Proof. vm_compute. repeat split; reflexivity. Qed.
+
+(* the same widget 3 shown by two different parents (4, then 5) at the same place while the
+   pointer rests on it: the old parent must get MouseLeave and the new one MouseEnter, and
+   the next press is routed through the new parent *)
+Definition sh_ta := Node 0 10 3 [(0, 0, 0, Node 4 10 3 [(0, 0, 0, Node 3 10 1 [])])].
+Definition sh_tb := Node 0 10 3 [(0, 0, 0, Node 5 10 3 [(0, 0, 0, Node 3 10 1 [])])].
+Definition sh_history (tick_calls press_calls : list call3) : fcase :=
+  ([], 0, [],
+   [(FI (IStart sh_ta), ([(0, EInit, Target)], 0));
+    (FI (IMouse 3 0), ([(0, EEnter, Target); (4, EEnter, Target); (3, EEnter, Target);
+                        (3, EMouse 3 0, Target); (4, EMouse 3 0, Bubble); (0, EMouse 3 0, Bubble)], 0));
+    (FI IRedrawReq, ([], 0));
+    (FFrame2 sh_tb sh_tb, (tick_calls, 1));
+    (FI (IMouse 3 0), (press_calls, 0))]).
+Example C15_ex_shared_widget :
+  let press w := [(3, EMouse 3 0, Target); (w, EMouse 3 0, Bubble); (0, EMouse 3 0, Bubble)] in
+  f_case_ok (sh_history [(4, ELeave, Target); (5, EEnter, Target)] (press 5)) = true /\
+  f_case_holds (sh_history [(4, ELeave, Target); (5, EEnter, Target)] (press 5)) = true /\
+  f_case_holds (sh_history [] (press 4)) = false /\
+  f_case_holds (sh_history [(4, ELeave, Target); (5, EEnter, Target)] (press 4)) = false.
+Proof. vm_compute. repeat split; reflexivity. Qed.
+
+(* the hypotheses of C15_frames_step_sound hold at the start of App.Run and for the inputs of
+   the two histories above *)
+Example C15_ex_frames_init :
+  f_inv 0 (f_spec_init 0) (init_st 0) /\
+  f_app_input (FFrame2 rl_t1 rl_t2) = true /\
+  Forall (fun t => NoDup (ids t) /\ wf16 t) (ftrees (FFrame2 rl_t1 rl_t2)) /\
+  no_focus_from_focusout ex_oracle.
+Proof.
+  split; [apply f_init_inv|]. split; [reflexivity|]. split.
+  - repeat constructor; cbn; try lia; intuition (try lia).
+  - intros lg w ph. reflexivity.
+Qed.
